@@ -415,3 +415,14 @@ def _classify(name, case, res):
         m = re.search(r'raised (\w+)', res)
         return 'raises-' + m.group(1)
     return 'wrong-result'
+
+MANIFEST = dict(
+    text=('Lean theorems over any linear order: is_on <-> membership in a half-open interval (incl. touching and zero-length '
+          'intervals), window query = on-time ∩ window as point sets (empty when there is none), returned pieces lie inside the '
+          'window and inside an original interval, event-subset mask, integrity check. The executable model (index arithmetic as '
+          'coded, plus the specification form) is compared bit-exactly with Livetime.is_on / get_uptime_intervals_between / '
+          'get_livetime_upto / draw_ontimes on every run; exact-fraction oracles search the implementation for failing inputs.'),
+    note=('Proved for the specification form betweenSpec; equality of the index-arithmetic form with it, get_livetime_upto = measure and '
+          'draw_ontimes in on-time are exhibited by the bit-exact correspondence and exact-fraction oracles only (partial).'),
+    design='DESIGN.md section 4 C14',
+    technique='Lean 4 proof (order theory, induction over interval lists) + bit-exact model/implementation correspondence')
